@@ -521,20 +521,19 @@ def routines_of(prog: Program):
     are used by that routine only (the ones the compiler validates)."""
     bodies = {None: prog.main}
     by_sid = {s.sid: s for s in prog.subs}
-    todo = [prog.main]
+    todo = [None]
+    used = {}
     while todo:
-        b = todo.pop()
-        cs = set()
-        _calls(b, cs)
-        for sid in cs:
+        k = todo.pop()
+        # what the routine references in the compiler's block graph: places cut off by Break/Continue (e.g. the step of a For whose body
+        # only breaks) are not part of it, places behind Return/Approve/Err are
+        fl = Flow(set(), linked_after_exit=True)
+        fl.run(bodies[k], frozenset([frozenset()]))
+        used[k] = fl.used
+        for sid in fl.called:
             if sid not in bodies:
                 bodies[sid] = by_sid[sid].body
-                todo.append(by_sid[sid].body)
-    used = {}
-    for k, b in bodies.items():
-        s = set()
-        _vars_of(b, s)
-        used[k] = s
+                todo.append(sid)
     local = {}
     for k in bodies:
         others = set()
@@ -552,25 +551,37 @@ class Flow:
     """All syntactic paths through one routine, represented by the set of possible
     'variables stored so far' sets at every program point (loops: iterate to the fixpoint)."""
 
-    def __init__(self, local):
+    def __init__(self, local, linked_after_exit=False):
         self.local = local
         self.bad = set()     # occurrence ids of loads reached with the variable possibly unset
         self.live = set()    # occurrence ids of loads that lie on some path at all
+        # `linked_after_exit`: the view of the compiler's block graph, in which the code behind Return/Approve/Err stays linked (only
+        # Break/Continue cut an edge); used to find which variables and routines a routine REFERENCES in the compiler's sense
+        self.linked_after_exit = linked_after_exit
+        self.used = set()    # variables referenced (load / store / index) at a linked place
+        self.called = set()  # routines called from a linked place
 
     def run(self, n, S):
         """S: set of frozensets.  Returns (fallthrough, break, continue) state sets."""
         E = frozenset()
         t = n[0]
-        if t in ("int", "txn", "global", "param", "index"):
+        if t in ("int", "txn", "global", "param"):
+            return S, E, E
+        if t == "index":
+            if S:
+                self.used.add(n[1].uid)
             return S, E, E
         if t == "load":
             if S:
+                self.used.add(n[1].uid)
                 self.live.add(n[2])
                 if n[1].uid in self.local and any(n[1].uid not in s for s in S):
                     self.bad.add(n[2])
             return S, E, E
         if t == "store":
             S1, b, c = self.run(n[2], S)
+            if S1:
+                self.used.add(n[1].uid)
             if n[1].uid in self.local:
                 S1 = frozenset(s | {n[1].uid} for s in S1)
             return S1, b, c
@@ -580,6 +591,8 @@ class Flow:
                 S, b, c = self.run(a, S)
                 B |= b
                 C |= c
+            if t == "call" and S:
+                self.called.add(n[1].sid)
             return S, frozenset(B), frozenset(C)
         if t == "seq":
             B, C = set(), set()
@@ -633,11 +646,11 @@ class Flow:
         if t == "continue":
             return E, E, frozenset(S)
         if t in ("approve", "reject", "err"):
-            return E, E, E
+            return (S if self.linked_after_exit else E), E, E
         if t == "ret":
             if n[1] is not None:
-                self.run(n[1], S)
-            return E, E, E
+                S, _b, _c = self.run(n[1], S)
+            return (S if self.linked_after_exit else E), E, E
         raise ValueError("flow: unknown node " + str(t))
 
 
